@@ -411,6 +411,26 @@ func (s *Server) Env(op EnvOp) int {
 				setPath(o, p, op.Value)
 			}
 		})
+	case "heal":
+		// the child's own controller reports it healthy: Ready=True and (unless noOG) it has
+		// observed its latest generation.  skipIfRevNot: leave it alone unless spec.rev has that value.
+		if cur, ok := s.store[key]; ok {
+			if want, has := op.Value.(string); has && want != "" {
+				sp, _ := cur["spec"].(map[string]interface{})
+				if rv, _ := sp["rev"].(string); rv != want {
+					break
+				}
+			}
+		}
+		mutate(func(o Obj) {
+			st := Obj{"conditions": []interface{}{Obj{"type": "Ready", "status": "True"}}}
+			if len(op.Path) == 0 || op.Path[0] != "noOG" {
+				if g, ok := toInt64(meta(o)["generation"]); ok {
+					st["observedGeneration"] = g
+				}
+			}
+			o["status"] = st
+		})
 	case "touch":
 		mutate(func(o Obj) {
 			a, _ := meta(o)["annotations"].(map[string]interface{})
